@@ -326,8 +326,8 @@ func runScheduled(e *env, in input, height int64, f *finding) (*blockRun, string
 				}
 			}
 			for _, w := range watch {
-				if ranAhead && !strings.HasPrefix(w, "committed:") {
-					continue
+				if ranAhead {
+					continue // (also another run-ahead Commit may legitimately return now: a chain of hand-overs)
 				}
 				if s.hasNote(w) {
 					f.set(false, "", fmt.Sprintf("step %d: %s happened although the model says the operation has to wait for a commit", i, w))
@@ -453,9 +453,40 @@ func cancelPoint(in input) int {
 
 // traceOf turns the recorder's events into the per-thread form Trace_ParallelExec.tla reads.
 func traceOf(r *blockRun, k int, res string) map[string]interface{} {
-	time.Sleep(2 * time.Millisecond) // goroutines that outlive a failed block finish their current step
+	// Goroutines outlive a failed block (the dispatcher returns at once). The `commit` event is recorded when Commit is
+	// entered (see wvsWrap.Commit), so the trace may only be taken when every dispatched transaction has really committed:
+	// all gates are open in this mode and every prepared transaction was started, so they all finish.
+	prepared := map[int]bool{}
+	r.mu.Lock()
+	for _, e := range r.events {
+		if e["op"] == "top" {
+			prepared[e["t"].(int)] = true
+		}
+	}
+	r.mu.Unlock()
+	done := r.s.wait(5*time.Second, func() bool {
+		for t := range prepared {
+			if _, ok := r.s.notes[fmt.Sprintf("committed:%d", t)]; !ok {
+				return false
+			}
+		}
+		return true
+	})
 	r.mu.Lock()
 	defer r.mu.Unlock()
+	if !done {
+		// (should not happen) keep only what is certain: a commit that has not returned is not part of the trace
+		var kept []map[string]interface{}
+		for _, e := range r.events {
+			if e["op"] == "commit" {
+				if !r.s.hasNote(fmt.Sprintf("committed:%d", e["t"].(int))) {
+					continue
+				}
+			}
+			kept = append(kept, e)
+		}
+		r.events = kept
+	}
 	ev := make([][]map[string]interface{}, k+1)
 	for i := range ev {
 		ev[i] = []map[string]interface{}{}
